@@ -50,11 +50,8 @@ def repo_corpus_cases(tools):
     return cases
 
 
-CANON_HEADER = "From Moq Require Import Strs MockSem P_C07.\n"
-CANON_DEFN = ("map (fun '(id, stub, resets, ifaces, mks) => (id, "
-              "(if forallb (canonical stub resets) mks then \"C\" else \"c\") ++ "
-              "(if forallb disciplined mks then \"D\" else \"d\") ++ "
-              "(if stub || forallb (fun '(i, mk) => nil_msgs_ok i mk) (combine ifaces mks) then \"M\" else \"m\"))) cases")
+CANON_HEADER = "From Moq Require Import Strs MockSem MockCheck.\n"
+CANON_DEFN = ("map (fun '(id, stub, resets, ifaces, mks) => (id, verdict_string stub resets ifaces mks)) cases")
 
 
 def run(tools, seed, tier):
